@@ -151,21 +151,22 @@ def oracle(s, start, after, r, flts):
                 'detail': dict(detail, decisive_ops=ops, kind=kind, causes=sorted(allc))}
     if r.budget:
         return viol('does-not-terminate')
+    pre_intact = False
+    if clp is not None:
+        # is the first argument in some trash directory as a complete pair (whatever else the faults left lying around)?
+        for tdx, (infos_, pays_) in scen.trash_state(after).items():
+            for inm, raw in infos_.items():
+                nm_ = inm[:-len('.trashinfo')]
+                loc, _p = scen.trashinfo_location(tdx, raw or b'')
+                if nm_ in pays_ and loc is not None and scen.location_matches(tdx, loc, PRE) and \
+                        world.same_entry(start, PRE, after, '%s/files/%s' % (tdx, nm_)):
+                    pre_intact = True
     if clp is not None and clp['state'] != 'TRASHED':
         # the first argument was completely in the trash (its payload moved) before the first fault was delivered: it has to stay that way
         moved = [t[0] for t in r.trace if t[1] in ('rename', 'replace') and cell.ok_of(t) and t[2] and t[2][0].rstrip('/').endswith(PRE[len(B):])]
-        if moved and flts and min(f['at'] for f in flts) > moved[0]:
-            intact = False
-            for tdx, (infos_, pays_) in scen.trash_state(after).items():
-                for inm, raw in infos_.items():
-                    nm_ = inm[:-len('.trashinfo')]
-                    loc, _p = scen.trashinfo_location(tdx, raw or b'')
-                    if nm_ in pays_ and loc is not None and scen.location_matches(tdx, loc, PRE) and \
-                            world.same_entry(start, PRE, after, '%s/files/%s' % (tdx, nm_)):
-                        intact = True
-            if not intact:
-                detail['first_argument'] = clp['why']
-                return viol('earlier-argument-damaged-while-handling-a-later-one')
+        if moved and flts and min(f['at'] for f in flts) > moved[0] and not pre_intact:
+            detail['first_argument'] = clp['why']
+            return viol('earlier-argument-damaged-while-handling-a-later-one')
     tb = r.exit not in (0, 74) and 'Traceback' in r.err
     if tb and cl['state'] != 'HALF':
         # an uncaught exception that leaves the entry untouched and exits non-zero is a (crude) failure report:
@@ -209,8 +210,9 @@ def oracle(s, start, after, r, flts):
         if tdx.startswith('/mnt/v1/') and praw.startswith(b'/'):
             return viol('absolute-Path-written-in-a-volume-trash-dir')
     if clp is not None:
-        if (r.exit == 0) != (cl['state'] == 'TRASHED' and clp['state'] == 'TRASHED'):
-            return viol('exit-status-lies(exit=%s,states=%s+%s)' % ('0' if r.exit == 0 else 'nonzero', clp['state'], cl['state']))
+        pre_ok = clp['state'] == 'TRASHED' or (pre_intact and not world.under(after, PRE))          # (a complete pair counts even when a failed clean-up left a stray info next to it)
+        if (r.exit == 0) != (cl['state'] == 'TRASHED' and pre_ok):
+            return viol('exit-status-lies(exit=%s,states=%s+%s)' % ('0' if r.exit == 0 else 'nonzero', 'TRASHED' if pre_ok else clp['state'], cl['state']))
     elif (r.exit == 0) != (cl['state'] == 'TRASHED'):
         return viol('exit-status-lies(exit=%s,state=%s)' % ('0' if r.exit == 0 else 'nonzero', cl['state']))
     return {'verdict': 'ok', 'klass': '%s(%s)' % (cl['state'], 'exit0' if r.exit == 0 else 'nz'), 'nontrivial': nt, 'detail': detail}
